@@ -392,6 +392,7 @@ def check(chk):
                            text="_last_count += %s" % amt)
     chk.expect(n_st >= 3, "C04: stores to the entrance counter lost (%d)" % n_st)
     _snapshots_and_jam(chk, repo)
+    _eject_outcome_and_give_up(chk, repo)
 
 
 def _snapshots_and_jam(chk, repo):
@@ -458,6 +459,51 @@ def _snapshots_and_jam(chk, repo):
     chk.ob("JAM-4", "a trusted count that differs from the last one becomes the last count", ok, f.where(), construct=f.ident, text="last count update")
 
 
+def _eject_outcome_and_give_up(chk, repo):
+    """ENDEJ-4: the count handler is told whether the ball left (end_eject(process, ball_left)): what it is told is the outcome of the
+    confirmation awaited in the same function, or False where the eject was abandoned before a ball could leave - never an assumed True
+    (the device count is decremented on True: a ball that came back would be counted out and then captured from the playfield).
+    GIVEUP-4: when ball search gives up the balls written off the machine total are exactly the balls the playfield count held, read
+    before that count is zeroed."""
+    OBH = "mpf/devices/ball_device/outgoing_balls_handler.py"
+    n = 0
+    for m in repo.cls(OBH, "OutgoingBallsHandler").methods.values():
+        for c in m.calls():
+            if call_attr(c) != "end_eject" or not src(c.func.value).endswith("ball_count_handler") or len(c.args) < 2:
+                continue
+            n += 1
+            chk.analysed(m)
+            a = c.args[1]
+            ok = isinstance(a, ast.Constant) and a.value is False
+            if isinstance(a, ast.Name):
+                defs = [x for x in walk_local(m.node) if isinstance(x, ast.Assign) and src(x.targets[0]) == a.id]
+                ok = bool(defs) and all(isinstance(d.value, ast.Await) and isinstance(d.value.value, ast.Call) and
+                                        (call_attr(d.value.value) or "").startswith(("_handle_confirm", "_handle_late_confirm", "_handle_eject")) or
+                                        (isinstance(d.value, ast.Constant) and d.value.value is False) for d in defs)
+            chk.ob("ENDEJ-4", "%s tells the count handler the awaited outcome of the confirmation (or False), never an assumed True" % m.qualname, ok, m.where(c),
+                   detail="ball_left = %s" % src(a), construct=m.ident, text="end_eject outcome " + src(a))
+    chk.ob("ENDEJ-4", "end_eject call sites examined (%d)" % n, n >= 3, OBH + ":1", nontrivial=False)
+    BS_ = "mpf/core/ball_search.py"
+    g = repo.func(BS_, "BallSearch.give_up")
+    chk.analysed(g)
+    cfg = g.cfg()
+    sub = [x for x in cfg.nodes if x.kind == "stmt" and isinstance(x.ast, ast.AugAssign) and isinstance(x.ast.op, ast.Sub) and src(x.ast.target).endswith("num_balls_known")]
+    zero = [x for x in cfg.nodes if x.kind == "stmt" and isinstance(x.ast, ast.Assign) and src(x.ast.targets[0]) == "self.playfield.balls" and src(x.ast.value) == "0"]
+    chk.need(len(sub) == 1 and len(zero) == 1, "GIVEUP-4", "give_up writes the playfield's balls off the machine total and zeroes the playfield count", g)
+    v = sub[0].ast.value
+    ok = False
+    if isinstance(v, ast.Name):
+        defs = [x for x in cfg.nodes if x.kind == "stmt" and isinstance(x.ast, ast.Assign) and src(x.ast.targets[0]) == v.id]
+        ok = len(defs) == 1 and src(defs[0].ast.value) == "self.playfield.balls" and cfg.dominates(defs[0].id, zero[0].id) and cfg.dominates(defs[0].id, sub[0].id)
+    elif src(v) == "self.playfield.balls":
+        ok = cfg.dominates(sub[0].id, zero[0].id)
+    chk.ob("GIVEUP-4", "the balls written off the machine total are the balls the playfield count held (read before it is zeroed)", ok, g.where(sub[0].ast),
+           detail="num_balls_known -= %s" % src(v), construct=g.ident, text="give up write-off")
+    cl = [c for c in g.calls() if call_attr(c) == "_compensate_lost_balls"]
+    ok = len(cl) == 1 and isinstance(v, ast.Name) and [src(a) for a in cl[0].args] == [v.id]
+    chk.ob("GIVEUP-4", "the same number is compensated (replacement balls)", ok, g.where(), construct=g.ident, text="give up compensation")
+
+
 def battery():
     from sa.battery import M
     return [
@@ -493,6 +539,8 @@ def battery():
         M("playfield jump leaves the source's available balls", "mpf/core/ball_controller.py", "                        playfield_source.available_balls -= 1\n", "", "DELTA-1"),
         M("old count read before the await that delivers the new one", BC, "        ball_changes = asyncio.ensure_future(self.counter.wait_for_ball_count_changes(0))\n        new_balls = await ball_changes\n\n        # update count\n        old_ball_count = self._ball_count\n", "        old_ball_count = self._ball_count\n        ball_changes = asyncio.ensure_future(self.counter.wait_for_ball_count_changes(0))\n        new_balls = await ball_changes\n\n        # update count\n", "SNAP-4"),
         M("lone ball on the jam switch of an empty device distrusted", "mpf/devices/ball_device/switch_counter.py", "            if self.is_jammed() and new_count == 1 and self._last_count != 0:", "            if self.is_jammed() and new_count == 1:", "JAM-4"),
+        M("idle mechanical eject assumed to have left", "mpf/devices/ball_device/outgoing_balls_handler.py", "                    await self.ball_device.ball_count_handler.end_eject(ball_eject_process, result)\n                    if result:\n                        continue", "                    await self.ball_device.ball_count_handler.end_eject(ball_eject_process, True)\n                    if result:\n                        continue", "ENDEJ-4"),
+        M("ball search writes off promised balls too", "mpf/core/ball_search.py", "        lost_balls = self.playfield.balls\n", "        lost_balls = self.playfield.available_balls\n", "GIVEUP-4"),
     ]
 
 
